@@ -504,7 +504,52 @@ def run(ctx, config='rel-all'):
         okv = len(sl) == 1 and sl[0].args[0] == P_ and sl[0].args[1][0] == 'call' and 'ExactSizeIterator' in sl[0].args[1][1] and sl[0].args[1][1].endswith('::len') and len(sl[0].args[1][2]) == 1 \
             and (sl[0].args[1][2][0] == SELF or (sl[0].args[1][2][0][0] == 'addr' and sl[0].args[1][2][0][1][0] == 'local' and sl[0].args[1][2][0][1][2] == 1))
         check('IntoIter::' + nm, 'the remaining elements are from_raw_parts(ptr, self.len())', okv, '', bs[0].get('span'))
-    ctx.floor('O2', n[0], 93, 'formula clauses evaluated')
+    # ---- RawVec constructors / capacity
+    def rawvec(name):
+        bs = [b for b in db.fn_bodies() if b['kind'] == 'assoc_fn' and (b['meta'].get('impl_adt') or '').endswith('raw_vec::RawVec') and b['meta'].get('name') == name and not b['meta'].get('impl_trait')]
+        if not bs:
+            ctx.anchor_missing('O2', 'RawVec::' + name)
+        return bs[0] if bs else None
+    b = rawvec('cap')
+    if b:
+        I2, r2 = arena.run_fn(ctx, b['id'], config)
+        capl = ('load', ('fld', ('deref', SELF), 'collections::raw_vec::RawVec.cap'), 0)
+        alts = arena.alternatives(I2, r2.ret, set())
+        okv = {t for t, _ in alts} == {C((1 << 64) - 1), capl} and any(t == C((1 << 64) - 1) and any(f[0] == 'eq' and SZ in f[1:] and C(0) in f[1:] for f in fs) for t, fs in alts)
+        check('RawVec::cap', 'usize::MAX for zero-sized elements, the stored capacity otherwise', okv, '', b.get('span'))
+    b = rawvec('new_in')
+    if b:
+        I2, r2 = arena.run_fn(ctx, b['id'], config)
+        okv = r2.ret is not None and r2.ret[0] == 'agg' and field_of(r2.ret, 'cap') == C(0) and field_of(r2.ret, 'a') == SELF and field_of(r2.ret, 'ptr')[0] == 'app' and field_of(r2.ret, 'ptr')[1] == 'dangling'
+        check('RawVec::new_in', 'dangling pointer, capacity 0, the given arena', okv, '', b.get('span'))
+    b = rawvec('from_raw_parts_in')
+    if b:
+        I2, r2 = arena.run_fn(ctx, b['id'], config)
+        okv = r2.ret is not None and r2.ret[0] == 'agg' and [field_of(r2.ret, k) for k in ('ptr', 'cap', 'a')] == [('param', 1), ('param', 2), ('param', 3)]
+        check('RawVec::from_raw_parts_in', '(ptr, cap, arena) are stored as given', okv, '', b.get('span'))
+    b = rawvec('allocate_in')
+    if b:
+        I2, r2 = arena.run_fn(ctx, b['id'], config)
+        ev = [e for e in r2.events if len(e.stack) == 1 and e.kind == 'call']
+        cm = [e for e in ev if (e.callee or '').endswith('checked_mul')]
+        ag = [e for e in ev if (e.callee or '').endswith('::alloc_guard')]
+        al = [e for e in ev if (e.extra.get('trait_path') or '') in ('alloc::Alloc::alloc', 'alloc::Alloc::alloc_zeroed')]
+        nbytes = app('mul', ('param', 1), SZ)
+        okv = len(cm) == 1 and set(cm[0].args) == {('param', 1), SZ} and len(ag) == 1 and ag[0].args[0] == nbytes and len(al) == 2 and all(a.args[1] == ('layout', nbytes, sym('alignof(T)')) for a in al) \
+            and all(('ne', nbytes, C(0)) in a.state.facts for a in al)
+        check('RawVec::allocate_in', 'bytes = checked cap * size_of::<T>(), guarded, allocated (zeroed or not) only when non-zero', okv, '', b.get('span'))
+        okr = r2.ret is not None and r2.ret[0] == 'agg' and field_of(r2.ret, 'cap') == ('param', 1)
+        check('RawVec::allocate_in', 'records the requested capacity', okr)
+    m = need('capacity')
+    if m:
+        cc = m.events('call', '::cap')
+        check('capacity', 'forwards to the raw buffer', len(cc) == 1 and m.r.ret == cc[0].ret, '', m.body.get('span'))
+    m = need('shrink_to_fit')
+    if m:
+        st = m.events('call', 'RawVec::<\'a, T>::shrink_to_fit')
+        lenl = ('load', ('fld', ('deref', SELF), 'collections::vec::Vec.len'), 0)
+        check('shrink_to_fit', 'shrinks the raw buffer to exactly len', len(st) == 1 and st[0].args[1] == lenl, '', m.body.get('span'))
+    ctx.floor('O2', n[0], 100, 'formula clauses evaluated')
     # ---- R3 reserve forwarding
     for name in ('reserve', 'reserve_exact', 'try_reserve', 'try_reserve_exact'):
         b = vec_method(db, name)
